@@ -9291,7 +9291,16 @@ bool SoPlexBase<R>::_parseSettingsLine(char* line, const int lineNumber)
          unsigned int value;
          unsigned long parseval;
 
-         parseval = std::stoul(paramValueString);
+         try
+         {
+            parseval = std::stoul(paramValueString);
+         }
+         catch(const std::exception&)
+         {
+            SPX_MSG_INFO1(spxout, spxout << "Error parsing settings: invalid value <" << paramValueString
+                          << "> for parameter <" << paramName << ">.\n");
+            return false;
+         }
 
          if(parseval > UINT_MAX)
          {
@@ -9815,7 +9824,16 @@ bool SoPlexBase<R>::parseSettingsString(char* string)
          unsigned int value;
          unsigned long parseval;
 
-         parseval = std::stoul(paramValueString);
+         try
+         {
+            parseval = std::stoul(paramValueString);
+         }
+         catch(const std::exception&)
+         {
+            SPX_MSG_INFO1(spxout, spxout << "Error parsing settings: invalid value <" << paramValueString
+                          << "> for parameter <" << paramName << ">.\n");
+            return false;
+         }
 
          if(parseval > UINT_MAX)
          {
